@@ -49,10 +49,24 @@ def initOfJson (j : Json) : Except String (Option (List (Var × Int))) :=
     pure (some (← (← j.getArr?).toList.mapM (fun t => do
       pure ((← t.getArrVal? 0 >>= Json.getNat?), (← t.getArrVal? 1 >>= Json.getInt?)))))
 
+/-- the model object: built from the `+=` history `"ops"`, or — optional field `"obj"`, used for objects whose
+history is not a plain `+=` history (PCBO / PCSO with recorded constraints and ancillas) — given as the data the
+front end reads: `{"terms": items in dict order, "vars": _variables, "mapping": labels by integer index}` -/
 def objOfJson (j : Json) : Except String (Except Err Obj) := do
   let κ ← j.getObjVal? "kind" >>= kindOfJson
-  let ops ← j.getObjVal? "ops" >>= polyOfJson
-  pure (if κ = .dict then .ok (Obj.ofDict ops) else Obj.build κ ops)
+  match j.getObjVal? "obj" with
+  | .ok d =>
+    if d.isNull then do
+      let ops ← j.getObjVal? "ops" >>= polyOfJson
+      pure (if κ = .dict then .ok (Obj.ofDict ops) else Obj.build κ ops)
+    else do
+      let terms ← d.getObjVal? "terms" >>= polyOfJson
+      let vars ← d.getObjVal? "vars" >>= natList
+      let mapping ← d.getObjVal? "mapping" >>= natList
+      pure (.ok { kind := κ, terms := terms, vars := vars, mapping := mapping })
+  | .error _ => do
+    let ops ← j.getObjVal? "ops" >>= polyOfJson
+    pure (if κ = .dict then .ok (Obj.ofDict ops) else Obj.build κ ops)
 
 def intsJson (l : List Int) : Json := Json.arr (l.map (fun (i : Int) => (i : Json))).toArray
 def natsJson (l : List Nat) : Json := Json.arr (l.map (fun (i : Nat) => (i : Json))).toArray
